@@ -86,7 +86,7 @@ FLOORS = {
 }
 EXHAUSTIVE = False
 
-KINDS = ["op", "sub_sum", "sub_sin", "sub_grad", "terminal", "geo", "math"]
+KINDS = ["op", "sub_sum", "sub_sin", "sub_grad", "terminal", "geo", "sub_jac", "math"]
 PATTERNS = ["all", "use", "inst", "held"]
 EXPECTED_CLASSES = [
     "ArityChecker", "BalanceModifiers", "BaseFormOperatorDerivativeRuleset", "ChangeToReferenceGrad", "CheckComparisons",
